@@ -69,6 +69,39 @@ Example ex_unary_passes :
   forall sv cl, verdict_errs id_hdrs id_wire (server_of sv) (client_of cl) ex_unary = Ok [].
 Proof. intros [|] [|]; vm_compute; reflexivity. Qed.
 
+(* the Section hypotheses of expectation_met are satisfiable (the theorem is not vacuous in its transport): the
+   identity transport satisfies transport_ok, and so does a transport that behaves like an HTTP stack - names arrive in
+   lower case, the values of one field joined into one with ", " (C03's canon_join is what makes the joined form agree) *)
+Example transport_ok_identity : transport_ok id_hdrs id_wire.
+Proof. exact transport_id_proof. Qed.
+Example transport_ok_joining : transport_ok join_hdrs join_wire.
+Proof. exact transport_join_proof. Qed.
+(* ... and the second one really changes what the peers see *)
+Example joining_changes_headers :
+  join_hdrs [ex_hdr] = [mkH (bs "x-custom") [bs "v1, v2"]].
+Proof. vm_compute. reflexivity. Qed.
+(* hence the verdict theorem applies to both, e.g. on the full-duplex example with the joining transport, all pairs *)
+Example ex_full_passes_joined :
+  forall sv cl, verdict_errs join_hdrs join_wire (server_of sv) (client_of cl) ex_full = Ok [].
+Proof. intros [|] [|]; vm_compute; reflexivity. Qed.
+Example ex_unary_passes_joined :
+  forall sv cl, verdict_errs join_hdrs join_wire (server_of sv) (client_of cl) ex_unary = Ok [].
+Proof. intros [|] [|]; vm_compute; reflexivity. Qed.
+
+(* only the first message's definition (and full_duplex flag) counts: a client stream whose definition sits on the second
+   message only is well-formed, its expectation is the bare echo, and all four pairs meet it; the same for a full-duplex
+   stream whose later messages carry other definitions and another full_duplex flag *)
+Definition ex_later := mkT (bs "cl") 2 [] [mkRq 1 false (bs "a") None; mkRq 1 false (bs "b") (Some (ex_def [bs "r"] (Some ex_err)))].
+Definition ex_several := mkT (bs "fs") 5 []
+  [mkRq 3 true (bs "a") (Some (ex_def [bs "r0"; bs "r1"] None)); mkRq 3 false (bs "b") (Some (ex_def [] (Some ex_err)))].
+Example later_definition_ignored :
+  wf ex_later = true /\ expected ex_later = Ok (mkR [] [] [mkP [] (info [] (reqs_any (t_requests ex_later)))] None None 0) /\
+  forall sv cl, verdict_errs id_hdrs id_wire (server_of sv) (client_of cl) ex_later = Ok [].
+Proof. split; [vm_compute; reflexivity|]. split; [vm_compute; reflexivity|]. intros [|] [|]; vm_compute; reflexivity. Qed.
+Example several_definitions_first_wins :
+  wf ex_several = true /\ forall sv cl, verdict_errs id_hdrs id_wire (server_of sv) (client_of cl) ex_several = Ok [].
+Proof. split; [vm_compute; reflexivity|]. intros [|] [|]; vm_compute; reflexivity. Qed.
+
 (* the excluded class is not excluded for convenience: there the modelled peers do NOT satisfy the expectation
    (both servers have seen one request when they must fail, the expectation lists two) *)
 Example ex_known_fails :
